@@ -147,6 +147,18 @@ func (r *Reach) call(c ssa.CallInstruction, caller *ssa.Function, ev *evaluator,
 		return
 	} else {
 		callees = r.w.calleesCHA(c)
+		if cc.IsInvoke() && r.w.receiverIsExternal(cc.Value) {
+			// the receiver was produced by code outside the module (e.g. zstd.NewReader(...)): its dynamic type
+			// cannot be a module type; module values it wraps were handed over as arguments and are covered
+			// by the callback rule at that call
+			var ext []*ssa.Function
+			for _, f := range callees {
+				if !r.w.inModule(f) {
+					ext = append(ext, f)
+				}
+			}
+			callees = ext
+		}
 	}
 	if r.skip != nil {
 		var kept []*ssa.Function
@@ -219,8 +231,51 @@ func (r *Reach) callback(a ssa.Value, site ssa.CallInstruction, push func(*ssa.F
 		if t.NumMethods() == 0 {
 			return
 		}
-		// every module type implementing the interface may be called through each method
+		// which dynamic types can the argument have? constants (nil) have none; a value converted from a concrete
+		// type has exactly that type; anything else may be any module implementer
+		var concrete []types.Type
+		unknown := false
+		var scan func(v ssa.Value, d int)
+		seen := map[ssa.Value]bool{}
+		scan = func(v ssa.Value, d int) {
+			if seen[v] || d > 8 {
+				return
+			}
+			seen[v] = true
+			switch x := v.(type) {
+			case *ssa.Const:
+			case *ssa.MakeInterface:
+				concrete = append(concrete, x.X.Type())
+			case *ssa.ChangeInterface:
+				scan(x.X, d+1)
+			case *ssa.Extract:
+				scan(x.Tuple, d+1)
+			case *ssa.Phi:
+				for _, e := range x.Edges {
+					scan(e, d+1)
+				}
+			case *ssa.Call:
+				if g := x.Call.StaticCallee(); g != nil && !r.w.inModule(g) {
+					return // produced by external code
+				}
+				unknown = true
+			default:
+				unknown = true
+			}
+		}
+		scan(a, 0)
 		for _, n := range r.w.Implementers(t) {
+			if !unknown {
+				match := false
+				for _, ct := range concrete {
+					if nn := namedOf(ct); nn != nil && nn.Obj() == n.Obj() {
+						match = true
+					}
+				}
+				if !match {
+					continue
+				}
+			}
 			for i := 0; i < t.NumMethods(); i++ {
 				m := r.w.MethodOf(n, t.Method(i).Name())
 				if m == nil {
@@ -451,3 +506,24 @@ func (w *World) feasibleBlocks(fn *ssa.Function, bind binding, edgeFilter func(*
 }
 
 var _ = fmt.Sprint
+
+// receiverIsExternal: every provenance root of v is the result of a call to a function outside the module
+// (or a constant): the value's dynamic type was chosen by external code.
+func (w *World) receiverIsExternal(v ssa.Value) bool {
+	p := w.prov(v, provOpts{})
+	if len(p.Roots) == 0 || p.Truncated {
+		return false
+	}
+	for _, rt := range p.Roots {
+		switch rt.Kind {
+		case RConst:
+		case RCall:
+			if rt.Fn == nil || w.inModule(rt.Fn) {
+				return false
+			}
+		default:
+			return false
+		}
+	}
+	return true
+}
